@@ -37,6 +37,11 @@ def engine(ck, pid, kinds, n_quick=40, n_thorough=400, gen_kw=None, mc=True):
             if r.error and r.trace_json:
                 sc = ringlib.cex_to_scenario(ringlib.cex_states(r.trace_json), "variant-cex-%s-%s" % (r.error["name"], "fp" if not fp else "fl"))
                 _judge(ck, pid, kinds, binary, [sc], "variant-counterexample")
+        # (A'') coverage goals: a shortest behaviour through every branch of the membership actions, replayed on the real code
+        wit = ringlib.goal_witnesses(ck, CODE_FIXPRED, CODE_FIXLEAVE, CODE_FIXWRAP)
+        if wit:
+            _judge(ck, pid, kinds, binary, wit, "goal-witness")
+        ck.extra["goal_witnesses_replayed"] = len(wit)
     # (B/C) seeded controlled schedules
     n = n_thorough if ck.thorough else n_quick
     scenarios = []
